@@ -269,3 +269,140 @@ func init() {
 		return r
 	}
 }
+
+// ---- Trim / TrimSpace (ASCII contract) ----
+
+// trimCounts splits the state on how many bytes of b, from the left or from the right, lie in the ASCII cutset.
+func (ex *Exec) trimCounts(st *State, b []*term.Term, cut string, left bool) (counts []int, states []*State) {
+	inCut := func(x *term.Term) *term.Term {
+		var ors []*term.Term
+		for i := 0; i < len(cut); i++ {
+			ors = append(ors, term.Eq(x, term.Const(8, uint64(cut[i]))))
+		}
+		return term.Or(ors...)
+	}
+	n := len(b)
+	at := func(j int) *term.Term {
+		if left {
+			return b[j]
+		}
+		return b[n-1-j]
+	}
+	conds := make([]*term.Term, n+1)
+	for k := 0; k <= n; k++ {
+		var cs []*term.Term
+		for j := 0; j < k; j++ {
+			cs = append(cs, inCut(at(j)))
+		}
+		if k < n {
+			cs = append(cs, term.Not(inCut(at(k))))
+		}
+		conds[k] = term.And(cs...)
+	}
+	for k, s := range ex.splitStates(st, conds, false) {
+		if s != nil {
+			counts = append(counts, k)
+			states = append(states, s)
+		}
+	}
+	return
+}
+
+const asciiSpace = "\t\n\v\f\r "
+
+func init() {
+	// both ends; returns (state, from, to) triples
+	both := func(ex *Exec, c *CallCtx, b []*term.Term, cut string, name string) (sts []*State, from, to []int) {
+		if name != "" {
+			for _, x := range b {
+				// TrimSpace decodes UTF-8 (U+0085, U+00A0, U+2000.. are spaces too): the model covers ASCII input
+				ex.precond(c, c.St, name+"-ascii-input", term.Ult(x, term.Const(8, 0x80)))
+			}
+		}
+		lc, ls := ex.trimCounts(c.St, b, cut, true)
+		for i, st := range ls {
+			rest := b[lc[i]:]
+			rc, rs := ex.trimCounts(st, rest, cut, false)
+			for j, st2 := range rs {
+				sts = append(sts, st2)
+				from = append(from, lc[i])
+				to = append(to, len(b)-rc[j])
+			}
+		}
+		return
+	}
+	cutOf := func(v Value) string {
+		cut, ok := v.(StringV).Concrete()
+		if !ok {
+			abort("UNSUPPORTED", "Trim with a symbolic cutset")
+		}
+		for i := 0; i < len(cut); i++ {
+			if cut[i] >= 0x80 {
+				abort("UNSUPPORTED", "Trim with a non-ASCII cutset")
+			}
+		}
+		return cut
+	}
+	strRes := func(s StringV, sts []*State, from, to []int) []*callResult {
+		var out []*callResult
+		for i, st := range sts {
+			out = append(out, resultIn(st, StringV{B: s.B[from[i]:to[i]]}))
+		}
+		return out
+	}
+	sliceRes := func(sv SliceV, sts []*State, from, to []int) []*callResult {
+		var out []*callResult
+		for i, st := range sts {
+			// a subslice of the argument (same backing array), as the real functions return
+			out = append(out, resultIn(st, SliceV{Obj: sv.Obj, Off: sv.Off + from[i], Len: to[i] - from[i], Cap: sv.Cap - from[i]}))
+		}
+		return out
+	}
+	Stubs["strings.Trim"] = func(ex *Exec, c *CallCtx) []*callResult {
+		s := c.Args[0].(StringV)
+		sts, from, to := both(ex, c, s.B, cutOf(c.Args[1]), "")
+		return strRes(s, sts, from, to)
+	}
+	Stubs["strings.TrimSpace"] = func(ex *Exec, c *CallCtx) []*callResult {
+		s := c.Args[0].(StringV)
+		sts, from, to := both(ex, c, s.B, asciiSpace, "strings.TrimSpace")
+		return strRes(s, sts, from, to)
+	}
+	Stubs["bytes.Trim"] = func(ex *Exec, c *CallCtx) []*callResult {
+		sv := c.Args[0].(SliceV)
+		sts, from, to := both(ex, c, ex.sliceBytes(c.St, sv), cutOf(c.Args[1]), "")
+		return sliceRes(sv, sts, from, to)
+	}
+	Stubs["bytes.TrimSpace"] = func(ex *Exec, c *CallCtx) []*callResult {
+		sv := c.Args[0].(SliceV)
+		sts, from, to := both(ex, c, ex.sliceBytes(c.St, sv), asciiSpace, "bytes.TrimSpace")
+		return sliceRes(sv, sts, from, to)
+	}
+}
+
+// runeCountTerm is utf8.RuneCount as a term (no forking): cnt[i] = 1 + cnt[i + width of the rune decoded at i].
+func runeCountTerm(b []*term.Term) *term.Term {
+	n := len(b)
+	cnt := make([]*term.Term, n+5)
+	for i := n; i < n+5; i++ {
+		cnt[i] = c64(0)
+	}
+	for i := n - 1; i >= 0; i-- {
+		alts := decodeRuneAlts(b[i:])
+		res := term.Add(cnt[i+1], c64(1)) // width 1: ASCII or an invalid encoding
+		for _, a := range alts[1:] {
+			res = term.Ite(a.cond, term.Add(cnt[i+a.width], c64(1)), res)
+		}
+		cnt[i] = res
+	}
+	return cnt[0]
+}
+
+func init() {
+	Stubs["unicode/utf8.RuneCountInString"] = func(ex *Exec, c *CallCtx) []*callResult {
+		return c.ret(runeCountTerm(c.Args[0].(StringV).B))
+	}
+	Stubs["unicode/utf8.RuneCount"] = func(ex *Exec, c *CallCtx) []*callResult {
+		return c.ret(runeCountTerm(ex.sliceBytes(c.St, c.Args[0].(SliceV))))
+	}
+}
